@@ -500,6 +500,11 @@ class _Run(object):
     if sel is None:
       return cb.NO_BUFFER, "none"
     k, i = sel["k"], sel.get("i", 0)
+    if k == "live?":
+      live = pool.outstanding()
+      if live:
+        return live[i % len(live)], "live"
+      return cb.NO_BUFFER, "none"
     if k == "live":
       live = pool.outstanding()
       if live:
@@ -562,7 +567,8 @@ class _Run(object):
     raw = cb.flow_mod(x, MATCHES[mi], cookie=op.get("cookie", 0), command=cmd, idle_timeout=op.get("idle", 0),
                       hard_timeout=op.get("hard", 0), priority=prio, buffer_id=bid, out_port=out_port, flags=flags, actions=acts_raw)
     if not known_cmd:
-      self.add("flow_mod/bad-command", raw, "error", errors={(cb.OFPET_FLOW_MOD_FAILED, cb.OFPFMFC_BAD_COMMAND)})
+      # (an unknown action type in the same message may be what the switch reports instead)
+      self.add("flow_mod/bad-command", raw, "error", errors={(cb.OFPET_FLOW_MOD_FAILED, cb.OFPFMFC_BAD_COMMAND)} | errs | (E_UNSUP if errs else set()))
       return
     definite = set()
     root = None
@@ -575,7 +581,9 @@ class _Run(object):
                                                              cb.OFPFMFC_BAD_EMERG_TIMEOUT, cb.OFPFMFC_UNSUPPORTED)}
     else:
       flag_errs = set()
-    if bogus:
+    if special and bkind == "live":
+      cls = root = "flow_mod/refused-with-buffer"
+    elif bogus:
       cls, root = "flow_mod/buffer-%s" % bkind, "buffer-not-outstanding"
     elif errs and not is_del:
       cls = "flow_mod/bad-action"
@@ -604,6 +612,7 @@ class _Run(object):
         sh.pool.release(bid)
       else:
         # a switch that refuses the flow-mod may or may not send the buffered packet through the actions
+        sh.apply_actions(cb.decode_actions(acts_raw), stored[0], stored[1])     # for what it makes unknowable
         sh.tx_known = False
         sh.pool.forget(bid)
         self.out.label("live-buffer-in-refusable-message")
@@ -645,9 +654,11 @@ class _Run(object):
       cls = "packet_out/" + maybe
     else:
       cls = "packet_out/buffer-live" if bkind == "live" else "packet_out/data"
-    if definite:
+    if bkind == "none" and not data:
+      kind, e = "maybe", None          # nothing to send: whether the action list is looked at is open
+    elif definite:
       kind, e = "error", definite
-    elif maybe or (bkind == "none" and not data):
+    elif maybe:
       kind, e = "maybe", None
     else:
       kind, e = "none", None
@@ -838,18 +849,28 @@ class _Run(object):
     for m in stream:
       j = len(reqs)
       if m["type"] == cb.OFPT_ERROR:
-        # an error quotes the offending request: its first 8 bytes (type, length, xid) say which one it answers
+        # an error quotes the offending request: among the requests with the same first 8 bytes (type, length, xid)
+        # the one whose bytes agree best with the quoted data is the one it answers
         data = m.get("data", b"")
         open_ = [k for k in range(i, len(reqs)) if reqs[k].answer is None and reqs[k].xid == m["xid"] and reqs[k].internal is None]
         if len(data) >= 8:
-          quoted = [k for k in open_ if reqs[k].raw[:8] == data[:8]]
-          if not quoted:
-            done = [r for r in reqs if r.answer is not None and r.raw[:8] == data[:8]]
-            if done:
+          def score(k):
+            raw = reqs[k].raw
+            return sum(1 for a, b in zip(raw, data) if a == b)
+          cands = [k for k in range(len(reqs)) if reqs[k].raw[:8] == data[:8] and reqs[k].internal is None
+                   and (reqs[k].answer is not None or k >= i)]
+          if cands:
+            best = max(score(k) for k in cands)
+            top = [k for k in cands if score(k) == best]
+            top_open = [k for k in top if reqs[k].answer is None]
+            if not top_open:
+              r = reqs[top[-1]]
               self.fail("duplicate-response", "a second response (error %d/%d, xid %d) quotes request #%d (%s), which was already answered" % (
-                  m["etype"], m["code"], m["xid"], done[-1].idx, done[-1].cls), req=done[-1].root, mtype="error")
+                  m["etype"], m["code"], m["xid"], r.idx, r.cls), req=r.root, mtype="error")
               continue
-          open_ = quoted
+            open_ = top_open
+          else:
+            open_ = []
         refusable = [k for k in open_ if reqs[k].kind != "none"]
         for lst in (refusable, open_):
           if lst:
@@ -1097,9 +1118,8 @@ def _s_xid():
 
 
 def _s_port(valid_w=3):
-  valid = st.integers(1, N_PORTS)
-  bad = st.sampled_from([0, N_PORTS + 1, 99, 0xfeff, 0xff00, cb.OFPP_LOCAL, cb.OFPP_NONE, cb.OFPP_ALL, cb.OFPP_CONTROLLER])
-  return st.one_of(*([valid] * valid_w + [bad]))
+  bad = [0, N_PORTS + 1, 99, 0xfeff, 0xff00, cb.OFPP_LOCAL, cb.OFPP_NONE, cb.OFPP_ALL, cb.OFPP_CONTROLLER]
+  return st.sampled_from(list(range(1, N_PORTS + 1)) * (3 * valid_w) + bad)
 
 
 def _s_body(n=24):
@@ -1144,11 +1164,21 @@ def _s_op():
   port_mod = _fd(o=J("port_mod"), xid=x, port=_s_port(4), hw=st.sampled_from(["ok", "ok", "ok", "ok", "bad"]),
                  config=st.sampled_from([0, 1, 4, 16, 32, 64, 0x7f, 0xffffffff, 0x10]), mask=st.sampled_from([0, 1, 4, 16, 32, 64, 0x7f, 0xffffffff, 0x10]),
                  advertise=st.sampled_from([0, 1, 0xfff]))
-  flow_mod = _fd(o=J("flow_mod"), xid=x, m=st.integers(0, 7), cmd=st.sampled_from([0, 0, 0, 0, 1, 2, 3, 3, 4, 5, 9, 0xffff]),
+  flow_mod = _fd(o=J("flow_mod"), xid=x, m=st.integers(0, 7), cmd=st.sampled_from([0, 0, 0, 0, 1, 2, 3, 4, 5, 9, 0xffff]),
                  prio=st.sampled_from([0, 1, 100, 0x8000, 0xffff]), cookie=st.sampled_from([0, 1, 0xdeadbeef, 0xffffffffffffffff]),
                  idle=st.sampled_from([0, 0, 10, 0xffff]), hard=st.sampled_from([0, 0, 30]),
-                 flags=st.sampled_from([0, 0, 0, 0, 0, 0, 1, 1, 2, 4]), out_port=st.one_of(J(cb.OFPP_NONE), J(cb.OFPP_NONE), st.integers(1, N_PORTS)),
+                 flags=st.sampled_from([0] * 16 + [1, 1, 2, 4]), out_port=st.one_of(J(cb.OFPP_NONE), J(cb.OFPP_NONE), st.integers(1, N_PORTS)),
                  acts=_s_acts(), buf=_s_buf())
+  good_acts = st.lists(st.one_of(st.integers(1, N_PORTS).map(lambda p: ["out", p, 0]), st.integers(1, N_PORTS).map(lambda p: ["out", p, 0]),
+                                 st.sampled_from([["out", cb.OFPP_FLOOD, 0], ["out", cb.OFPP_ALL, 0], ["out", cb.OFPP_IN_PORT, 0],
+                                                  ["out", cb.OFPP_CONTROLLER, 32], ["out", cb.OFPP_CONTROLLER, 0xffff]])), min_size=0, max_size=3)
+  live = st.one_of(st.none(), st.none(), st.none(), st.integers(0, 3).map(lambda n: {"k": "live?", "i": n}))
+  flow_ok = _fd(o=J("flow_mod"), xid=x, m=st.integers(0, 7), cmd=st.sampled_from([0, 0, 0, 0, 1, 2]),
+                prio=st.sampled_from([0, 1, 100, 0x8000, 0xffff]), cookie=st.sampled_from([0, 1, 0xdeadbeef, 0xffffffffffffffff]),
+                idle=st.sampled_from([0, 0, 10, 0xffff]), hard=st.sampled_from([0, 0, 30]), flags=st.sampled_from([0, 0, 1]),
+                out_port=J(cb.OFPP_NONE), acts=good_acts, buf=live)
+  pout_ok = _fd(o=J("packet_out"), xid=x, in_port=st.one_of(J(cb.OFPP_NONE), st.integers(1, N_PORTS)), acts=good_acts, buf=live,
+                data=st.tuples(st.integers(0, 2), st.integers(0, 1), st.sampled_from([14, 60, 64, 100, 200])).map(list))
   wipe = _fd(o=J("flow_mod"), xid=x, m=J(0), cmd=J(3), acts=J([]))
   packet_out = _fd(o=J("packet_out"), xid=x, in_port=st.one_of(J(cb.OFPP_NONE), st.integers(1, N_PORTS)), acts=_s_acts(), buf=_s_buf(),
                    data=st.one_of(st.none(), st.tuples(st.integers(0, 2), st.integers(0, 1), st.sampled_from([14, 60, 64, 100, 200])).map(list),
@@ -1158,6 +1188,7 @@ def _s_op():
     _fd(o=J("stats"), xid=x, t=st.sampled_from([cb.OFPST_FLOW, cb.OFPST_AGGREGATE]), m=st.integers(0, 8),
         table=st.sampled_from([0xff, 0xff, 0xff, 0, 0, 1, 0xfe, 77]), out_port=st.one_of(J(cb.OFPP_NONE), J(cb.OFPP_NONE), J(cb.OFPP_NONE), st.integers(1, N_PORTS), J(99))),
     _fd(o=J("stats"), xid=x, t=st.sampled_from([cb.OFPST_FLOW, cb.OFPST_AGGREGATE]), m=J(0), table=J(0xff), out_port=J(cb.OFPP_NONE)),
+    _fd(o=J("stats"), xid=x, t=st.sampled_from([cb.OFPST_FLOW, cb.OFPST_AGGREGATE]), m=J(0), table=st.sampled_from([0, 0xff]), out_port=J(cb.OFPP_NONE)),
     _fd(o=J("stats"), xid=x, t=J(cb.OFPST_TABLE)),
     _fd(o=J("stats"), xid=x, t=J(cb.OFPST_PORT), port=st.one_of(J(cb.OFPP_NONE), J(cb.OFPP_NONE), _s_port(3))),
     _fd(o=J("stats"), xid=x, t=J(cb.OFPST_QUEUE), port=st.one_of(J(cb.OFPP_ALL), _s_port(3)), queue=st.sampled_from([cb.OFPQ_ALL, cb.OFPQ_ALL, 0, 1, 7])),
@@ -1166,8 +1197,18 @@ def _s_op():
   )
   frame = _fd(o=J("frame"), port=st.integers(0, N_PORTS - 1), dst=st.integers(0, 2), src=st.integers(0, 1),
               len=st.sampled_from([14, 60, 64, 100, 129, 300]), fill=st.integers(0, 255))
-  return st.one_of(simple, simple, barrier, barrier, barrier, set_config, port_mod, port_mod, flow_mod, flow_mod, flow_mod, wipe,
-                   packet_out, packet_out, stats, stats, stats, stats, frame, frame, frame)
+  # Hypothesis flattens nested one_of()s, so the mix is drawn explicitly: (weight, strategy)
+  table = [(10, simple), (14, barrier), (4, set_config), (7, port_mod), (14, flow_ok), (6, pout_ok), (8, flow_mod), (1, wipe),
+           (8, packet_out), (18, stats), (16, frame)]
+  kinds = []
+  for i, (wgt, _) in enumerate(table):
+    kinds += [i] * wgt
+  strategies = [t[1] for t in table]
+
+  @st.composite
+  def op(draw):
+    return draw(strategies[draw(st.sampled_from(kinds))])
+  return op()
 
 
 def _strategy(tier):
@@ -1181,6 +1222,6 @@ def _strategy(tier):
 def plan(tier):
   if tier == "quick":
     return [Enum("request-grid", lambda: _enum("quick"), shards=16),
-            Hyp("histories", lambda: _strategy(tier), examples=1600, shards=16)]
+            Hyp("histories", lambda: _strategy(tier), examples=4000, shards=16)]
   return [Enum("request-grid", lambda: _enum("thorough"), shards=16),
           Hyp("histories", lambda: _strategy(tier), examples=100000, shards=16)]
